@@ -146,17 +146,19 @@ contract('odml/base.py::Sectionable.append',
 
 contract('odml/section.py::BaseSection.insert',
          types={'self': 'BaseSection', 'position': 'any', 'obj': 'any'},
-         requires='is_int(position)',
+         requires='not is_ref(position)',
          ensures=['field(obj, "_parent") is self'],
-         may_raise={'ValueError': 'True'},
+         raises={'TypeError': 'not is_int(position)'},
+         may_raise={'ValueError': 'is_int(position)'},
          on_raise='Same',
          props=('C03', 'C04', 'C06'))
 
 contract('odml/base.py::Sectionable.insert',
          types={'self': 'BaseDocument', 'position': 'any', 'section': 'any'},
-         requires='is_int(position)',
+         requires='not is_ref(position)',
          ensures=['field(section, "_parent") is self'],
-         may_raise={'ValueError': 'True'},
+         raises={'TypeError': 'not is_int(position)'},
+         may_raise={'ValueError': 'is_int(position)'},
          on_raise='Same',
          props=('C03', 'C04', 'C06'))
 
